@@ -753,6 +753,42 @@ def _stmt_blocks(fn):
     return out
 
 
+def inline_super_aliases(tree):
+    """Normalisation: inside a method, a local bound exactly once by `NAME = super()` (zero-argument form, statement at the top
+    level of the method body), never rebound, not used in nested functions, is replaced at its later loads by `super()` and the
+    binding is dropped: `sup = super(); sup.__getitem__(k)` is analysed as `super().__getitem__(k)`.  Returns the number of
+    aliases inlined."""
+    total = 0
+    for cls in [n for n in ast.walk(tree) if isinstance(n, ast.ClassDef)]:
+        for fn in [m for m in cls.body if isinstance(m, (ast.FunctionDef, ast.AsyncFunctionDef))]:
+            binds = [st for st in fn.body if isinstance(st, ast.Assign) and len(st.targets) == 1 and isinstance(st.targets[0], ast.Name)
+                     and isinstance(st.value, ast.Call) and isinstance(st.value.func, ast.Name) and st.value.func.id == 'super'
+                     and not st.value.args and not st.value.keywords]
+            for st in binds:
+                nm = st.targets[0].id
+                stores = [x for x in ast.walk(fn) if isinstance(x, ast.Name) and x.id == nm and isinstance(x.ctx, (ast.Store, ast.Del))]
+                if len(stores) != 1 or any(isinstance(x, (ast.Global, ast.Nonlocal)) and nm in x.names for x in ast.walk(fn)):
+                    continue
+                nested = [x for x in ast.walk(fn) if x is not fn and isinstance(x, (ast.FunctionDef, ast.AsyncFunctionDef, ast.Lambda,
+                                                                                      ast.ClassDef))]
+                if any(isinstance(y, ast.Name) and y.id == nm for x in nested for y in ast.walk(x)):
+                    continue
+                loads = [x for x in ast.walk(fn) if isinstance(x, ast.Name) and x.id == nm and isinstance(x.ctx, ast.Load)]
+                if any((x.lineno, x.col_offset) < (st.end_lineno, st.end_col_offset) for x in loads):
+                    continue
+
+                class _R(ast.NodeTransformer):
+                    def visit_Name(self, n):
+                        if n.id == nm and isinstance(n.ctx, ast.Load):
+                            return ast.copy_location(ast.Call(func=ast.copy_location(ast.Name(id='super', ctx=ast.Load()), n),
+                                                              args=[], keywords=[]), n)
+                        return n
+                fn.body = [_R().visit(x) for x in fn.body if x is not st]
+                ast.fix_missing_locations(fn)
+                total += 1
+    return total
+
+
 def inline_bound_method_aliases(tree):
     """Normalisation: a local bound exactly once, by a statement at the top level of its function, to a bound method
     `r.m` / `r.x.m` of an object that is itself never rebound in the function (a parameter, `self`, or a local with a single
@@ -1042,6 +1078,7 @@ class Module:
         self.split_parallel_assignments = split_parallel_assignments(self.tree)
         self.expanded_closing = expand_closing(self.tree)
         self.hoisted_walrus = hoist_walrus_and_split_call_ifexp(self.tree)
+        self.inlined_super_aliases = inline_super_aliases(self.tree)
         self.inlined_method_aliases = inline_bound_method_aliases(self.tree)
         self.inlined_attribute_aliases = inline_attribute_aliases(self.tree)
         self.split_conditional_returns = split_conditional_returns(self.tree)
